@@ -22,7 +22,7 @@ def plan_params(r, small=None):
         vmax = [r.choice(pool) for _ in range(C)]
         scalar = False
     return {"x": "dilplan", "xmin": xmin, "xmax": xmax, "R": R, "C": C, "stock": stock, "mode": r.choice(["log", "linear", "log"]),
-            "vmax": vmax, "scalar_vmax": scalar, "mint10": r.choice([5, 10, 20, 50, 100, 200])}
+            "vmax": vmax, "scalar_vmax": scalar, "mint10": r.choice([5, 10, 20, 50, 100, 200]), "vmax_present": r.choice(["int", "int", "float", "ndarray"])}
 
 
 def targeted_params():
@@ -77,7 +77,12 @@ def execution_programs(r, recs, n):
         pr, pc = R + r.choice([0, 0, 2]), C + r.choice([0, 0, 1])
         plate = gen.mk_plate("dilutions", min(pr, 26), pc, 0, (max(vmax) + r.choice([0, 50])) * U, [0] * (min(pr, 26) * pc))
         lws = [stock, dil, plate]
-        op = {"op": "dilution", "params": p, "stock": 0, "stock_column": sc, "diluent": 1, "diluent_column": dc, "plate": 2,
+        if i % 4 == 1:
+            # stock and diluent are two columns of ONE trough
+            both = gen.mk_trough("reservoir", r.choice([1, 4, 8]), 2, 0, max(smax, dmax) + 10 * U, [smax, dmax])
+            lws = [both, dil, plate]
+            sc, dc = 0, 1
+        op = {"op": "dilution", "params": p, "stock": 0, "stock_column": sc, "diluent": 0 if i % 4 == 1 else 1, "diluent_column": dc, "plate": 2,
               "mix_repeat": r.choice([0, 1, 2]), "mix_volume": r.choice([0.5, 0.25, 0.8, 0.8]), "mix_wash": r.choice([2, "flush", "reuse"]),
               "roomy": True}
         if r.random() < 0.4:
